@@ -23,7 +23,8 @@ def ensure_deps():
 def ambient_for(index, replay=None):
     """Process-wide conditions a shard runs under.  They are rotated over the shards (deterministically, by shard index), so
     that an answer which depends on the string-hash seed (set / dict-of-set iteration order), on the current directory
-    (a data file opened by a relative path) or on assert statements being executed (python -O strips them) meets more than the one combination the pinned tests run under.  A witness
+    (a data file opened by a relative path) or on assert statements being executed (python -O strips them), or that announces itself with a warning (turned into an
+    error for warnings attributed to athlib modules, as `-W error` deployments and test runners do) meets more than the one combination the pinned tests run under.  A witness
     records the conditions of its shard and --replay restores them."""
     if replay:
         try:
@@ -33,8 +34,8 @@ def ambient_for(index, replay=None):
                         return w['ambient']
         except Exception:
             pass
-        return {'hashseed': '0', 'cwd': core.VERIF, 'optimize': False}
-    return {'hashseed': str(index % 5), 'cwd': [core.VERIF, core.REPO, '/'][index % 3], 'optimize': index % 4 == 3}
+        return {'hashseed': '0', 'cwd': core.VERIF, 'optimize': False, 'warnings': False}
+    return {'hashseed': str(index % 5), 'cwd': [core.VERIF, core.REPO, '/'][index % 3], 'optimize': index % 4 == 3, 'warnings': index % 4 == 1}
 
 
 def run_shard(prop, tier, seed, spec, timeout, replay=None, index=0):
